@@ -20,8 +20,12 @@ EXPLANATION = (
 )
 ASSUMPTIONS = ["redb multimap value order = tuple order (timestamp first)", "SystemTime is monotone enough (not decided)"]
 
+
 RUP = "store::fs::Store::register_useful_peer"
 NP = "namespace_peers"
+
+
+EXPLANATION += ' (R8) who-may-write the peers table: register_useful_peer, remove_replica, the migrations.'
 
 
 def tx_closure(f):
